@@ -16,3 +16,4 @@ import RSV.Props.C14
 import RSV.Props.C15
 import RSV.Props.C16
 import RSV.Props.C17all
+import RSV.Proofs.GenGauss   -- groundwork for the regenerated gaussianElimination (closed forms of its inner loops)
